@@ -198,3 +198,31 @@ func VerifH_C08_compose() {
 	vrt.Assert(verifEq(back, data), "reader-compose-roundtrip")
 	vrt.Covered("compose-done")
 }
+
+// C08 LZF window boundary: one 3-byte sequence (symbolic over a two-letter alphabet) recurs at distance d, d forked
+// around the 13-bit offset limit (8191..8194); everything else in the chunk is concrete and never repeats at that
+// distance. Both decoders must return the chunk.
+func VerifH_C08_lzf_window() {
+	vrt.LoopBound(20000)
+	d := 8191 + vrt.Choice(4)
+	total := d + 16
+	data := make([]byte, total)
+	for i := range data {
+		data[i] = byte(2 + (i*7+i/5)%250) // filler without the letters 0/1
+	}
+	x, y, z := vrt.U8()&1, vrt.U8()&1, vrt.U8()&1
+	data[0], data[1], data[2] = x, y, z
+	data[d], data[d+1], data[d+2] = x, y, z
+	f := NewLZFFilter()
+	enc, err := f.Apply(data)
+	vrt.AssertNoErr(err, "lzf-apply-ok")
+	dec, err := f.Remove(enc)
+	vrt.AssertNoErr(err, "lzf-remove-ok")
+	vrt.Assert(verifEq(dec, data), "lzf-roundtrip")
+	p := NewFilterPipeline()
+	p.AddFilter(f)
+	back, err := verifReaderPipeline(p).ApplyFilters(enc)
+	vrt.AssertNoErr(err, "reader-decodes-lzf")
+	vrt.Assert(verifEq(back, data), "reader-lzf-roundtrip")
+	vrt.Covered("lzf-window-done")
+}
